@@ -7,7 +7,7 @@
    Representation: finite float = Q, NaN = None, +-inf bounds = ereal, arrays = lists, masks =
    list bool, exceptions = outcome constructors.  np.argsort is not stable; the model breaks ties by
    realization index, the checkers accept every tie order (predicates [window_ok], [stair_ok]). *)
-From Coq Require Import String QArith Qabs Qround Qminmax Bool Arith ZArith List.
+From Coq Require Import String QArith Qabs Qround Qminmax Bool Arith ZArith List Permutation.
 From Ropt Require Import Base.Num Base.ListX Gen.Generated.
 Import ListNotations.
 Open Scope Q_scope.
@@ -270,15 +270,17 @@ Record evaluation := {
 
 Definition all_failed (f : list bool) : bool := forallb (fun b => b) f.
 
+(* _init_realization_filters: every configured filter is constructed, used or not *)
+Fixpoint create_all (cfg : config) (fs : list method) : outcome unit :=
+  match fs with
+  | [] => Ok tt
+  | m :: t => match create cfg m with Ok _ => create_all cfg t | Abort c => Abort c | Raise s => Raise s end
+  end.
+
 (* EnsembleEvaluator.__init__ followed by one calculate(compute_functions=True) on a single vector *)
 Definition evaluate (cfg : config) (filters : list method) (ofm cfm : option (list Z)) (rmin : nat)
     (objs0 : list (list oQ)) (cns0 : option (list (list oQ))) : outcome evaluation :=
-  let fix init (fs : list method) : outcome unit :=
-    match fs with
-    | [] => Ok tt
-    | m :: t => match create cfg m with Ok _ => init t | Abort c => Abort c | Raise s => Raise s end
-    end in
-  match init filters with
+  match create_all cfg filters with
   | Abort c => Abort c
   | Raise s => Raise s
   | Ok _ =>
@@ -315,6 +317,12 @@ Definition rank (values : list Q) (failed : list bool) (r : nat) : nat :=
 (* the sort filter [first, last] selects realization r *)
 Definition selected (values : list Q) (failed : list bool) (first last r : nat) : bool :=
   succeeded failed r && Nat.leb first (rank values failed r) && Nat.leb (rank values failed r) last.
+
+(* any ranking the implementation may use: the successful realizations, each once, values non-decreasing
+   (np.argsort fixes nothing about the order of tied values) *)
+Definition valid_order (values : list Q) (failed : list bool) (idx : list nat) : Prop :=
+  Permutation idx (successes failed) /\
+  forall i j, (i < j < length idx)%nat -> nth (nth i idx 0%nat) values 0 <= nth (nth j idx 0%nat) values 0.
 
 (* the CVaR staircase as a function of the rank k (n successes, percentile p) *)
 Definition stair_m (p : Q) (n : nat) : nat := Z.to_nat (qfloor (p * nq n)).
